@@ -21,7 +21,7 @@ def rule(p, eft, sub="alice"):
     return [p, sub, "data1", "read", eft]
 
 
-MATCHING = [rule(p, e) for p in PRIOS for e in ("allow", "deny")]
+MATCHING = [rule(p, e) for p in PRIOS for e in ("allow", "deny")] + [rule("1", "audit")]  # a matching rule with an effect that never decides
 OTHER = [rule("2", "allow", "bob"), rule("1", "deny", "bob")]
 UNIVERSE = MATCHING + OTHER
 
@@ -164,6 +164,16 @@ def run_subject(ctx, res, deep):
                 p = p + [[p[0][0]] + p[0][1:-1] + ["deny" if p[0][-1] == "allow" else "allow"]]  # same subject twice: arrival order among equals
                 rng.shuffle(p)
                 cases.append((gg, p, dom))
+    # deep hierarchies: the level of a subject is not bounded by the role manager's depth bound
+    global SNAMES_DEEP
+    for depth in (9, 10, 11, 12, 14):
+        names = [f"s{i}" for i in range(depth + 1)]
+        g = [[names[i], names[i + 1]] for i in range(depth)]
+        rng.shuffle(g)
+        for hi in (depth, depth - 1):
+            # the ancestor's rule arrives first, the descendant's effect is the opposite one
+            p = [[names[hi], "data1", "read", "deny"], [names[hi - 1], "data1", "read", "allow"], [names[0], "data1", "read", "deny"], [names[hi - 2], "data1", "read", "deny"]]
+            cases.append((g, p, False))
     with mp.Pool(12) as pool:
         outs = pool.map(_subject_case, cases, chunksize=32)
     lines = []
@@ -207,6 +217,8 @@ def run_subject(ctx, res, deep):
             continue
         # the more specific subject wins: first definite match in the stored order decides (C01)
         for x in SNAMES:
+            if not any(r[0] in SNAMES for r in p):
+                break  # deep-chain cases use other names; the ordering check above is what judges them
             anc = _reach(edges, x) | {x}
             exp = False
             for r in order:
